@@ -23,7 +23,7 @@ LEVEL = "model_checking"
 SHARDS = 4
 RULE = (
     "all ordered forests with <= N nodes (node = scope construct or probe message) x full product of "
-    "labels: construct in 10 kinds (incl. context()/run() of an already finished action), re-entry target k in {0,1,2}, fault in {none, destination raises BaseException on the end message, own logger raises on the end message}, exit in {fall through, Exception / "
+    "labels: construct in 12 kinds (incl. context()/run() of an already finished action, `with` on an action created in another context or before the scope it is entered in), re-entry target k in {0,1,2}, fault in {none, destination raises BaseException on the end message, own logger raises on the end message}, exit in {fall through, Exception / "
     "BaseException caught here, Exception / BaseException propagating to the top}; states = distinct reference context stacks reached (as "
     "tuples of construct kinds), transitions = scope entries + exits executed; non-trivial = tree with "
     "nesting depth >= 2 or a raise"
@@ -34,12 +34,13 @@ ASSUMPTIONS = [
 ]
 
 KINDS = ["with", "context", "run", "re-context", "re-run", "start_task", "generator-close", "generator-context-close",
-         "context-of-finished-action", "run-of-finished-action"]
+         "context-of-finished-action", "run-of-finished-action",
+         "with-action-created-in-an-empty-context", "with-action-created-before-the-scope-it-is-entered-in"]
 # exit: 0 fall through, 1 Exception caught right outside, 2 Exception propagating to the top,
 #       3 BaseException caught right outside, 4 BaseException propagating to the top
 # fault: 0 none; 1 a destination raises a BaseException while it is handed this action's end message;
 #        2 the action has its own logger whose write() raises on the end message
-SCHEMA = {"m": [], "a": [("c", 10), ("k", 3), ("exit", 5), ("fault", 3)]}
+SCHEMA = {"m": [], "a": [("c", 12), ("k", 3), ("exit", 5), ("fault", 3)]}
 
 
 def BOUNDS(tier):
@@ -177,8 +178,8 @@ def run_case(prog):
                 return
             child_ok(m["task_level"], m["task_uuid"], expect(), "message")
 
-        def new_action0(task=False, fault=0):
-            parent = expect()
+        def new_action0(task=False, fault=0, orphan=False):
+            parent = None if orphan else expect()
             if fault == 2:
                 a = (start_task if task else start_action)(FaultyLogger(), action_type="s")
             else:
@@ -291,6 +292,26 @@ def run_case(prog):
                         inside(s, a, kind)
                 else:
                     a.run(lambda: inside(s, a, kind))
+            elif c == 10:
+                # created where no action is current (a job object made elsewhere), entered here
+                import contextvars
+
+                a = contextvars.Context().run(lambda: new_action0(False, fault, orphan=True))
+                with a:
+                    inside(s, a, kind)
+            elif c == 11:
+                # a and b are both started here; a is entered inside b's block: leaving a restores b
+                a = new_action()
+                b = new_action()
+                with b:
+                    stack.append((b, "with"))
+                    try:
+                        check("after-enter:outer-of-" + kind, s)
+                        with a:
+                            inside(s, a, kind)
+                        check("after-exit:inner-of-" + kind, s)
+                    finally:
+                        stack.pop()
             elif c == 3:
                 a = stack[-1 - s[1].get("k", 0)][0]
                 with a.context():
